@@ -341,6 +341,12 @@ def edited_case(rng, case):
     a = rng.choice(cands)
     k = rng.randrange(len(units[a]))
     s0, e0, l0 = units[a][k]
+    if rng.random() < 0.25 and sum(len(us) for us in units) >= 2:
+        units[a] = units[a][:k] + units[a][k + 1:]         # a unit removed, nothing added
+        after["units"] = units
+        after["units_before"] = case["units"]
+        after["edit"] = ("remove", a, (s0, e0, l0))
+        return after
     shift = rng.choice([-9.0, -2.5, 3.0, 11.0, 40.0])
     new = (s0 + shift, e0 + shift + rng.choice([0.0, 0.5, 2.0]), l0)
     if new in units[a]:
@@ -368,6 +374,8 @@ def realign_many(pa, jobs, timeout=90):
             ed = after["edit"]
             if ed[0] == "add_annotator":
                 cont.add_annotator(gen.ANNOTATORS[len(case["units"])])
+            elif ed[0] == "remove":
+                cont.remove(gen.ANNOTATORS[ed[1]], pa.continuum.Unit(Segment(ed[2][0], ed[2][1]), ed[2][2]))
             else:
                 _, a, old, new = ed
                 name = gen.ANNOTATORS[a]
@@ -413,7 +421,7 @@ def replay_align(pa, data, soft):
     case = {"units": tup(data["units"]), "spec": tuple(data["dissim"]), "pattern": "replay", "unlabelled": False}
     if data.get("edit") is not None and data.get("units_before") is not None:
         ed = data["edit"]
-        case["edit"] = tuple(ed[:2]) + tuple(tuple(x) for x in ed[2:]) if ed[0] == "move" else tuple(ed)
+        case["edit"] = tuple(ed[:2]) + tuple(tuple(x) for x in ed[2:]) if ed[0] in ("move", "remove") else tuple(ed)
         case["units_before"] = tup(data["units_before"])
         before = dict(case, units=case["units_before"])
         res = realign_many(pa, [(before, case, mode, bool(data.get("first_soft")), soft)])[0]
